@@ -1,4 +1,5 @@
 import LolHtml.Lemmas.TagStates
+import LolHtml.Lemmas.SpecAttrsRun
 /-!
 The lexer run over one start tag, for ALL input bytes: by induction over the remaining input, with
 the tag / attribute states as invariant, the machine follows `Spec.Attrs` and — when the spec says
@@ -58,6 +59,42 @@ def Reaches (env : Env κ) (inp : Bytes) (F : Frame κ) (h : Nat) (t : Tag) (p :
   ∃ k cJ lJ tr, FinalOK F h t cJ lJ ∧ (tr = .gotoDyn ∨ tr = trans36 env.tbl) ∧ k < 2 * (t.stop - p) ∧
     ∀ fuel, runLoop env inp (k + 1 + fuel) m = cont env inp fuel (finish env tr (lexEmitTag env inp cJ lJ F.x))
 
+/-- how the machine registers represent a spec state (a quoted value is either about to be entered:
+enter action not yet run, cursor at the value start; or resumed after a chunk boundary: enter action
+run, token-part start at the value start) -/
+def Rel (st : St) (p S : Nat) (en : Bool) (cq : UInt8) (tps : Nat) (cattr : Option AttrOutline) : Prop :=
+  (cq = 34 ∨ cq = 39) ∧
+  match st with
+  | .beforeAttrName sol => S = (if sol then 32 else 33)
+  | .attrName s => S = 34 ∧ tps = s ∧ ∃ a, cattr = some a
+  | .afterAttrName n => S = 35 ∧ cattr = some (valueless n)
+  | .beforeAttrValue n => S = 36 ∧ cattr = some (valueless n)
+  | .valueQuoted q n vs => cattr = some (valueless n) ∧ cq = q ∧ ((q = 34 ∧ S = 38) ∨ (q = 39 ∧ S = 37)) ∧
+      ((en = false ∧ vs = p) ∨ (en = true ∧ tps = vs))
+  | .valueUnquoted n vs => S = 39 ∧ en = true ∧ tps = vs ∧ cattr = some (valueless n)
+
+/-- the machine sits in the state `mid` of the spec, about to take the end-of-input step -/
+def AtMid (inp : Bytes) (F : Frame κ) (h start : Nat) : Mid → M κ → Prop
+  | .attrs nm acc st, m => ∃ pm S en cq tps cattr,
+      m = mach F pm S en cq tps (some (.startTag nm h .html acc false)) cattr ∧
+      Rel st pm S en cq tps cattr ∧ pm ≤ inp.length ∧
+      (inp.drop pm = [] ∨ ∃ q n vs, st = .valueQuoted q n vs ∧ findByte q (inp.drop pm) = none)
+  | .name, m => ∃ en cq cattr nm0,
+      m = mach F inp.length 31 en cq start (some (.startTag nm0 h .html [] false)) cattr ∧
+      (cq = 34 ∨ cq = 39) ∧ start ≤ inp.length ∧ h = NameHash.ofBytes (slice inp start inp.length)
+
+/-- The tag does not end in this input: after `k` silent state-function calls (sink and simulator
+untouched) the machine sits in the spec's middle state `mid`. -/
+def ReachesMid (env : Env κ) (inp : Bytes) (F : Frame κ) (h start : Nat) (mid : Mid) (m : M κ) : Prop :=
+  ∃ k m', AtMid inp F h start mid m' ∧ ∀ fuel, runLoop env inp (k + fuel) m = runLoop env inp fuel m'
+
+/-- what the run from `m` must do, according to the spec's run over the rest of the input -/
+def Goal (env : Env κ) (inp : Bytes) (F : Frame κ) (hf : Tag → Nat) (hm : Mid → Nat) (start : Nat)
+    (run : Tag ⊕ Mid) (p : Nat) (m : M κ) : Prop :=
+  match run with
+  | .inl t => Reaches env inp F (hf t) t p m
+  | .inr mid => ReachesMid env inp F (hm mid) start mid m
+
 section
 variable {env : Env κ} {inp : Bytes} {F : Frame κ} {h : Nat} {t : Tag}
 
@@ -83,45 +120,30 @@ theorem Reaches.final {p : Nat} {m : M κ} {cJ : Common} {lJ : LexRegs} {tr : Tr
   rw [show 0 + 1 + fuel = fuel + 1 by omega, runLoop_succ, hs]
 
 
-/-- The tag does not end in this input: after `k` silent state-function calls (sink and simulator
-untouched) the next call is the end-of-input step of a tag state, with `lexeme_start` still at `<`. -/
-def ReachesEnd (env : Env κ) (inp : Bytes) (F : Frame κ) (m : M κ) : Prop :=
-  ∃ k cE lE, cE.nextPos = inp.length + 1 ∧ cE.isLast = F.il ∧ cE.cdataAllowed = F.ca ∧
-    cE.lastStartTagNameHash = F.lsh ∧ cE.lastTextType = F.ltt ∧ lE.lexemeStart = F.ls ∧
-    ∀ fuel, runLoop env inp (k + 1 + fuel) m = cont env inp fuel (eofStep env inp cE lE F.x)
-
-/-- what the run from `m` must do, according to the spec's result -/
-def Goal (env : Env κ) (inp : Bytes) (F : Frame κ) (hf : Tag → Nat) (res : Res) (p : Nat) (m : M κ) : Prop :=
-  match res with
-  | .finished t => Reaches env inp F (hf t) t p m
-  | .unfinished => ReachesEnd env inp F m
-
-theorem ReachesEnd.step {m m' : M κ} (hs : stateFn env inp m = (m', none))
-    (hr : ReachesEnd env inp F m') : ReachesEnd env inp F m := by
-  obtain ⟨k, cE, lE, e1, e2, e3, e4, e5, e6, hrun⟩ := hr
-  refine ⟨k + 1, cE, lE, e1, e2, e3, e4, e5, e6, fun fuel => ?_⟩
-  rw [show k + 1 + 1 + fuel = (k + 1 + fuel) + 1 by omega, runLoop_step hs]
+theorem ReachesMid.step {start : Nat} {mid : Mid} {m m' : M κ} (hs : stateFn env inp m = (m', none))
+    (hr : ReachesMid env inp F h start mid m') : ReachesMid env inp F h start mid m := by
+  obtain ⟨k, mE, hmid, hrun⟩ := hr
+  refine ⟨k + 1, mE, hmid, fun fuel => ?_⟩
+  rw [show k + 1 + fuel = (k + fuel) + 1 by omega, runLoop_step hs]
   exact hrun fuel
 
-theorem ReachesEnd.final {m : M κ} {cE : Common} {lE : LexRegs}
-    (hs : stateFn env inp m = eofStep env inp cE lE F.x) (e1 : cE.nextPos = inp.length + 1) (e2 : cE.isLast = F.il)
-    (e3 : cE.cdataAllowed = F.ca) (e4 : cE.lastStartTagNameHash = F.lsh) (e5 : cE.lastTextType = F.ltt)
-    (e6 : lE.lexemeStart = F.ls) : ReachesEnd env inp F m := by
-  refine ⟨0, cE, lE, e1, e2, e3, e4, e5, e6, fun fuel => ?_⟩
-  rw [show 0 + 1 + fuel = fuel + 1 by omega, runLoop_succ, hs]
+theorem ReachesMid.here {start : Nat} {mid : Mid} {m : M κ} (hm : AtMid inp F h start mid m) :
+    ReachesMid env inp F h start mid m :=
+  ⟨0, m, hm, fun fuel => by rw [Nat.zero_add]⟩
 
-theorem Goal.step {hf : Tag → Nat} {res : Res} {p p' : Nat} {m m' : M κ} (hs : stateFn env inp m = (m', none))
-    (hp : p < p') (hr : Goal env inp F hf res p' m') : Goal env inp F hf res p m := by
-  cases res with
-  | finished t => exact Reaches.step hs hp hr
-  | unfinished => exact ReachesEnd.step hs hr
+theorem Goal.step {hf : Tag → Nat} {hm : Mid → Nat} {start : Nat} {run : Tag ⊕ Mid} {p p' : Nat} {m m' : M κ}
+    (hs : stateFn env inp m = (m', none)) (hp : p < p') (hr : Goal env inp F hf hm start run p' m') :
+    Goal env inp F hf hm start run p m := by
+  cases run with
+  | inl t => exact Reaches.step hs hp hr
+  | inr mid => exact ReachesMid.step hs hr
 
-theorem Goal.step2 {hf : Tag → Nat} {res : Res} {p p' : Nat} {m m1 m2 : M κ} (hs1 : stateFn env inp m = (m1, none))
-    (hs2 : stateFn env inp m1 = (m2, none)) (hp : p < p')
-    (hr : Goal env inp F hf res p' m2) : Goal env inp F hf res p m := by
-  cases res with
-  | finished t => exact Reaches.step2 hs1 hs2 hp hr
-  | unfinished => exact ReachesEnd.step hs1 (ReachesEnd.step hs2 hr)
+theorem Goal.step2 {hf : Tag → Nat} {hm : Mid → Nat} {start : Nat} {run : Tag ⊕ Mid} {p p' : Nat} {m m1 m2 : M κ}
+    (hs1 : stateFn env inp m = (m1, none)) (hs2 : stateFn env inp m1 = (m2, none)) (hp : p < p')
+    (hr : Goal env inp F hf hm start run p' m2) : Goal env inp F hf hm start run p m := by
+  cases run with
+  | inl t => exact Reaches.step2 hs1 hs2 hp hr
+  | inr mid => exact ReachesMid.step hs1 (ReachesMid.step hs2 hr)
 
 end
 
@@ -134,15 +156,15 @@ theorem drop_cons_facts {α : Type} {inp : List α} {p : Nat} {b : α} {rest : L
     simpa [List.drop_drop, Nat.add_comm] using this
 
 /-- the quoted-value state of the spec, all at once: up to the closing quote -/
-theorem attrs_quoted (nm : Range) (acc : List AttrOutline) (q : UInt8) (n : Range) (vs : Nat) (rest : List UInt8) (p : Nat) :
-    attrs nm acc (.valueQuoted q n vs) rest p =
+theorem attrsRun_quoted (nm : Range) (acc : List AttrOutline) (q : UInt8) (n : Range) (vs : Nat) (rest : List UInt8) (p : Nat) :
+    attrsRun nm acc (.valueQuoted q n vs) rest p =
       match findByte q rest with
-      | some k => attrs nm (acc ++ [valued n vs (p + k) (p + k + 1)]) (.beforeAttrName false) (rest.drop (k + 1)) (p + k + 1)
-      | none => .unfinished := by
+      | some k => attrsRun nm (acc ++ [valued n vs (p + k) (p + k + 1)]) (.beforeAttrName false) (rest.drop (k + 1)) (p + k + 1)
+      | none => .inr (.attrs nm acc (.valueQuoted q n vs)) := by
   induction rest generalizing p with
-  | nil => simp [attrs, findByte]
+  | nil => simp [attrsRun, findByte]
   | cons b rest ih =>
-    simp only [attrs, findByte]
+    simp only [attrsRun, attrsStep, findByte]
     by_cases hb : (b == q) = true
     · simp [hb]
     · simp only [hb, Bool.false_eq_true, if_false]
@@ -153,17 +175,6 @@ theorem attrs_quoted (nm : Range) (acc : List AttrOutline) (q : UInt8) (n : Rang
         simp only [Option.map_some, List.drop_succ_cons]
         rw [show p + 1 + k = p + (k + 1) by omega]
 
-/-- how the machine registers represent a spec state -/
-def Rel (st : St) (p S : Nat) (en : Bool) (cq : UInt8) (tps : Nat) (cattr : Option AttrOutline) : Prop :=
-  (cq = 34 ∨ cq = 39) ∧
-  match st with
-  | .beforeAttrName sol => S = (if sol then 32 else 33)
-  | .attrName s => S = 34 ∧ tps = s ∧ ∃ a, cattr = some a
-  | .afterAttrName n => S = 35 ∧ cattr = some (valueless n)
-  | .beforeAttrValue n => S = 36 ∧ cattr = some (valueless n)
-  | .valueQuoted q n vs => cattr = some (valueless n) ∧ vs = p ∧ en = false ∧ cq = q ∧ ((q = 34 ∧ S = 38) ∨ (q = 39 ∧ S = 37))
-  | .valueUnquoted n vs => S = 39 ∧ en = true ∧ tps = vs ∧ cattr = some (valueless n)
-
 section
 variable {env : Env κ} (hok : TagStatesOk env.tbl = true) {inp : Bytes} (F : Frame κ) (nm : Range) (h : Nat)
 include hok
@@ -173,62 +184,27 @@ theorem getElem?_none_of_drop_nil {inp : Bytes} {p : Nat} (h : inp.drop p = []) 
   rw [List.drop_eq_nil_iff] at h
   exact List.getElem?_eq_none h
 
-/-- the input ends inside the tag -/
-theorem attrs_end (st : St) (p S : Nat) (en : Bool) (cq : UInt8) (tps : Nat) (cattr : Option AttrOutline)
-    (ct : Option TagOutline) (hdrop : inp.drop p = []) (hple : p ≤ inp.length) (hrel : Rel st p S en cq tps cattr) :
-    ReachesEnd env inp F (mach F p S en cq tps ct cattr) := by
-  have hb := getElem?_none_of_drop_nil hdrop
-  have hp : p = inp.length := by
-    rw [List.drop_eq_nil_iff] at hdrop; omega
-  obtain ⟨hq, hrel⟩ := hrel
-  cases st with
-  | beforeAttrName sol =>
-    simp only at hrel
-    cases sol with
-    | false => subst hrel; exact ReachesEnd.final (step33_eof hok hb) (by simp [hp]) rfl rfl rfl rfl rfl
-    | true => subst hrel; exact ReachesEnd.final (step32_eof hok hb) (by simp [hp]) rfl rfl rfl rfl rfl
-  | attrName s =>
-    obtain ⟨hS, _, _⟩ := hrel
-    subst hS; exact ReachesEnd.final (step34_eof hok hb) (by simp [hp]) rfl rfl rfl rfl rfl
-  | afterAttrName n =>
-    obtain ⟨hS, _⟩ := hrel
-    subst hS; exact ReachesEnd.final (step35_eof hok hb) (by simp [hp]) rfl rfl rfl rfl rfl
-  | beforeAttrValue n =>
-    obtain ⟨hS, _⟩ := hrel
-    subst hS; exact ReachesEnd.final (step36_eof hok hb) (by simp [hp]) rfl rfl rfl rfl rfl
-  | valueQuoted q n vs =>
-    obtain ⟨_, _, hen, hcq, hS⟩ := hrel
-    subst hen hcq
-    rcases hS with ⟨rfl, rfl⟩ | ⟨rfl, rfl⟩
-    · exact ReachesEnd.final (step38_eof hok (by rw [hdrop]; rfl)) (by simp [hp]) rfl rfl rfl rfl rfl
-    · exact ReachesEnd.final (step37_eof hok (by rw [hdrop]; rfl)) (by simp [hp]) rfl rfl rfl rfl rfl
-  | valueUnquoted n vs =>
-    obtain ⟨hS, hen, _, _⟩ := hrel
-    subst hS hen; exact ReachesEnd.final (step39_eof hok hb) (by simp [hp]) rfl rfl rfl rfl rfl
-
 /-- **The attribute loop.** -/
-theorem run_attrs (n : Nat) : ∀ (rest : List UInt8), rest.length ≤ n →
+theorem run_attrs (start : Nat) (n : Nat) : ∀ (rest : List UInt8), rest.length ≤ n →
     ∀ (st : St) (p S : Nat) (en : Bool) (cq : UInt8) (tps : Nat) (cattr : Option AttrOutline) (as : List AttrOutline),
     inp.drop p = rest → p ≤ inp.length → Rel st p S en cq tps cattr →
-    ∀ res, attrs nm as st rest p = res →
-    Goal env inp F (fun _ => h) res p (mach F p S en cq tps (some (.startTag nm h .html as false)) cattr) := by
-  have hnil : ∀ (st : St) (p : Nat) (as : List AttrOutline), attrs nm as st [] p = .unfinished := by
-    intro st p as; cases st <;> rfl
+    ∀ run, attrsRun nm as st rest p = run →
+    Goal env inp F (fun _ => h) (fun _ => h) start run p (mach F p S en cq tps (some (.startTag nm h .html as false)) cattr) := by
   induction n with
   | zero =>
     intro rest hlen st p S en cq tps cattr as hdrop hple hrel t hfin
     have : rest = [] := by cases rest <;> simp_all
     subst this
-    rw [hnil] at hfin
+    simp only [attrsRun] at hfin
     subst hfin
-    exact attrs_end hok F st p S en cq tps cattr _ hdrop hple hrel
+    exact ReachesMid.here ⟨p, S, en, cq, tps, cattr, rfl, hrel, hple, Or.inl hdrop⟩
   | succ n ih =>
     intro rest hlen st p S en cq tps cattr as hdrop hple hrel t hfin
     cases rest with
     | nil =>
-      rw [hnil] at hfin
+      simp only [attrsRun] at hfin
       subst hfin
-      exact attrs_end hok F st p S en cq tps cattr _ hdrop hple hrel
+      exact ReachesMid.here ⟨p, S, en, cq, tps, cattr, rfl, hrel, hple, Or.inl hdrop⟩
     | cons b rest =>
     obtain ⟨hb, hdrop'⟩ := drop_cons_facts hdrop
     have hlen' : rest.length ≤ n := by simp at hlen; omega
@@ -240,9 +216,9 @@ theorem run_attrs (n : Nat) : ∀ (rest : List UInt8), rest.length ≤ n →
     cases st with
     | beforeAttrName sol =>
       simp only at hrel
-      simp only [attrs] at hfin
+      simp only [attrsRun, attrsStep] at hfin
       by_cases hws : isWs b = true
-      · rw [if_pos hws] at hfin
+      · rw [if_pos hws] at hfin; try dsimp only at hfin
         have hr := ih rest hlen' (.beforeAttrName false) (p + 1) 33 false cq tps cattr as hdrop' hple' ⟨hq, by simp⟩ t hfin
         have hne : ¬b = 62 := by
           have := isWs_true hws; unfold IsWs at this
@@ -256,9 +232,9 @@ theorem run_attrs (n : Nat) : ∀ (rest : List UInt8), rest.length ≤ n →
           subst hrel
           exact Goal.step2 (step32_other hok hb hne) (step33_ws hok hb (isWs_true hws)) (Nat.lt_succ_self p) hr
       · have hws' : isWs b = false := by simpa using hws
-        rw [if_neg hws] at hfin
+        rw [if_neg hws] at hfin; try dsimp only at hfin
         by_cases h47 : (b == 47) = true
-        · rw [if_pos h47] at hfin
+        · rw [if_pos h47] at hfin; try dsimp only at hfin
           have hb47 : b = 47 := by simpa using h47
           subst hb47
           have hr := ih rest hlen' (.beforeAttrName true) (p + 1) 32 false cq tps cattr as hdrop' hple' ⟨hq, by simp⟩ t hfin
@@ -267,10 +243,10 @@ theorem run_attrs (n : Nat) : ∀ (rest : List UInt8), rest.length ≤ n →
           | true =>
             subst hrel
             exact Goal.step2 (step32_other hok hb (by decide)) (step33_slash hok hb) (Nat.lt_succ_self p) hr
-        · rw [if_neg h47] at hfin
+        · rw [if_neg h47] at hfin; try dsimp only at hfin
           have hb47 : ¬b = 47 := by simpa using h47
           by_cases h62 : (b == 62) = true
-          · rw [if_pos h62] at hfin
+          · rw [if_pos h62] at hfin; try dsimp only at hfin
             have hb62 : b = 62 := by simpa using h62
             subst hb62
             subst hfin
@@ -281,7 +257,7 @@ theorem run_attrs (n : Nat) : ∀ (rest : List UInt8), rest.length ≤ n →
             | true =>
               subst hrel
               exact Reaches.final (step32_gt hok hb) ⟨rfl, rfl, rfl, rfl, rfl, rfl, rfl, rfl, rfl⟩ (Or.inl rfl) (Nat.lt_succ_self p)
-          · rw [if_neg h62] at hfin
+          · rw [if_neg h62] at hfin; try dsimp only at hfin
             have hb62 : ¬b = 62 := by simpa using h62
             have hr := ih rest hlen' (.attrName p) (p + 1) 34 false cq p (some .default) as hdrop' hple' ⟨hq, rfl, rfl, _, rfl⟩ t hfin
             cases sol with
@@ -294,122 +270,118 @@ theorem run_attrs (n : Nat) : ∀ (rest : List UInt8), rest.length ≤ n →
     | attrName s =>
       obtain ⟨hS, htps, a, ha⟩ := hrel
       subst hS htps ha
-      simp only [attrs] at hfin
+      simp only [attrsRun, attrsStep] at hfin
       by_cases hws : isWs b = true
-      · rw [if_pos hws] at hfin
+      · rw [if_pos hws] at hfin; try dsimp only at hfin
         have hr := ih rest hlen' (.afterAttrName ⟨tps, p⟩) (p + 1) 35 false cq tps (some (valueless ⟨tps, p⟩)) as hdrop' hple' ⟨hq, rfl, rfl⟩ t hfin
         exact Goal.step (step34_ws hok hb (isWs_true hws)) (Nat.lt_succ_self p) hr
       · have hws' : isWs b = false := by simpa using hws
-        rw [if_neg hws] at hfin
+        rw [if_neg hws] at hfin; try dsimp only at hfin
         by_cases h61 : (b == 61) = true
-        · rw [if_pos h61] at hfin
+        · rw [if_pos h61] at hfin; try dsimp only at hfin
           have hb61 : b = 61 := by simpa using h61
           subst hb61
           have hr := ih rest hlen' (.beforeAttrValue ⟨tps, p⟩) (p + 1) 36 false cq tps (some (valueless ⟨tps, p⟩)) as hdrop' hple' ⟨hq, rfl, rfl⟩ t hfin
           exact Goal.step (step34_eq hok hb) (Nat.lt_succ_self p) hr
-        · rw [if_neg h61] at hfin
+        · rw [if_neg h61] at hfin; try dsimp only at hfin
           have hb61 : ¬b = 61 := by simpa using h61
           by_cases h47 : (b == 47) = true
-          · rw [if_pos h47] at hfin
+          · rw [if_pos h47] at hfin; try dsimp only at hfin
             have hb47 : b = 47 := by simpa using h47
             subst hb47
             have hr := ih rest hlen' (.beforeAttrName true) (p + 1) 32 false cq tps none (as ++ [valueless ⟨tps, p⟩]) hdrop' hple' ⟨hq, by simp⟩ t hfin
             exact Goal.step (step34_slash hok hb) (Nat.lt_succ_self p) hr
-          · rw [if_neg h47] at hfin
+          · rw [if_neg h47] at hfin; try dsimp only at hfin
             have hb47 : ¬b = 47 := by simpa using h47
             by_cases h62 : (b == 62) = true
-            · rw [if_pos h62] at hfin
+            · rw [if_pos h62] at hfin; try dsimp only at hfin
               have hb62 : b = 62 := by simpa using h62
               subst hb62
               subst hfin
               exact Reaches.final (step34_gt hok hb) ⟨rfl, rfl, rfl, rfl, rfl, rfl, rfl, rfl, rfl⟩ (Or.inl rfl) (Nat.lt_succ_self p)
-            · rw [if_neg h62] at hfin
+            · rw [if_neg h62] at hfin; try dsimp only at hfin
               have hb62 : ¬b = 62 := by simpa using h62
               have hr := ih rest hlen' (.attrName tps) (p + 1) 34 en cq tps (some a) as hdrop' hple' ⟨hq, rfl, rfl, _, rfl⟩ t hfin
               exact Goal.step (step34_other hok hb (isWs_false hws') hb61 hb47 hb62) (Nat.lt_succ_self p) hr
     | afterAttrName nr =>
       obtain ⟨hS, ha⟩ := hrel
       subst hS ha
-      simp only [attrs] at hfin
+      simp only [attrsRun, attrsStep] at hfin
       by_cases hws : isWs b = true
-      · rw [if_pos hws] at hfin
+      · rw [if_pos hws] at hfin; try dsimp only at hfin
         have hr := ih rest hlen' (.afterAttrName nr) (p + 1) 35 en cq tps (some (valueless nr)) as hdrop' hple' ⟨hq, rfl, rfl⟩ t hfin
         exact Goal.step (step35_ws hok hb (isWs_true hws)) (Nat.lt_succ_self p) hr
       · have hws' : isWs b = false := by simpa using hws
-        rw [if_neg hws] at hfin
+        rw [if_neg hws] at hfin; try dsimp only at hfin
         by_cases h47 : (b == 47) = true
-        · rw [if_pos h47] at hfin
+        · rw [if_pos h47] at hfin; try dsimp only at hfin
           have hb47 : b = 47 := by simpa using h47
           subst hb47
           have hr := ih rest hlen' (.beforeAttrName true) (p + 1) 32 false cq tps none (as ++ [valueless nr]) hdrop' hple' ⟨hq, by simp⟩ t hfin
           exact Goal.step (step35_slash hok hb) (Nat.lt_succ_self p) hr
-        · rw [if_neg h47] at hfin
+        · rw [if_neg h47] at hfin; try dsimp only at hfin
           have hb47 : ¬b = 47 := by simpa using h47
           by_cases h61 : (b == 61) = true
-          · rw [if_pos h61] at hfin
+          · rw [if_pos h61] at hfin; try dsimp only at hfin
             have hb61 : b = 61 := by simpa using h61
             subst hb61
             have hr := ih rest hlen' (.beforeAttrValue nr) (p + 1) 36 false cq tps (some (valueless nr)) as hdrop' hple' ⟨hq, rfl, rfl⟩ t hfin
             exact Goal.step (step35_eq hok hb) (Nat.lt_succ_self p) hr
-          · rw [if_neg h61] at hfin
+          · rw [if_neg h61] at hfin; try dsimp only at hfin
             have hb61 : ¬b = 61 := by simpa using h61
             by_cases h62 : (b == 62) = true
-            · rw [if_pos h62] at hfin
+            · rw [if_pos h62] at hfin; try dsimp only at hfin
               have hb62 : b = 62 := by simpa using h62
               subst hb62
               subst hfin
               exact Reaches.final (step35_gt hok hb) ⟨rfl, rfl, rfl, rfl, rfl, rfl, rfl, rfl, rfl⟩ (Or.inl rfl) (Nat.lt_succ_self p)
-            · rw [if_neg h62] at hfin
+            · rw [if_neg h62] at hfin; try dsimp only at hfin
               have hb62 : ¬b = 62 := by simpa using h62
               have hr := ih rest hlen' (.attrName p) (p + 1) 34 false cq p (some .default) (as ++ [valueless nr]) hdrop' hple' ⟨hq, rfl, rfl, _, rfl⟩ t hfin
               exact Goal.step (step35_other hok hb (isWs_false hws') hb47 hb61 hb62) (Nat.lt_succ_self p) hr
     | beforeAttrValue nr =>
       obtain ⟨hS, ha⟩ := hrel
       subst hS ha
-      simp only [attrs] at hfin
+      simp only [attrsRun, attrsStep] at hfin
       by_cases hws : isWs b = true
-      · rw [if_pos hws] at hfin
+      · rw [if_pos hws] at hfin; try dsimp only at hfin
         have hr := ih rest hlen' (.beforeAttrValue nr) (p + 1) 36 en cq tps (some (valueless nr)) as hdrop' hple' ⟨hq, rfl, rfl⟩ t hfin
         exact Goal.step (step36_ws hok hb (isWs_true hws)) (Nat.lt_succ_self p) hr
       · have hws' : isWs b = false := by simpa using hws
-        rw [if_neg hws] at hfin
+        rw [if_neg hws] at hfin; try dsimp only at hfin
         by_cases hqq : (b == 34 || b == 39) = true
-        · rw [if_pos hqq] at hfin
+        · rw [if_pos hqq] at hfin; try dsimp only at hfin
           simp only [Bool.or_eq_true, beq_iff_eq] at hqq
           rcases hqq with rfl | rfl
           · have hr := ih rest hlen' (.valueQuoted 34 nr (p + 1)) (p + 1) 38 false 34 tps (some (valueless nr)) as hdrop' hple'
-              ⟨Or.inl rfl, rfl, rfl, rfl, rfl, Or.inl ⟨rfl, rfl⟩⟩ t hfin
+              ⟨Or.inl rfl, rfl, rfl, Or.inl ⟨rfl, rfl⟩, Or.inl ⟨rfl, rfl⟩⟩ t hfin
             exact Goal.step (step36_dq hok hb) (Nat.lt_succ_self p) hr
           · have hr := ih rest hlen' (.valueQuoted 39 nr (p + 1)) (p + 1) 37 false 39 tps (some (valueless nr)) as hdrop' hple'
-              ⟨Or.inr rfl, rfl, rfl, rfl, rfl, Or.inr ⟨rfl, rfl⟩⟩ t hfin
+              ⟨Or.inr rfl, rfl, rfl, Or.inr ⟨rfl, rfl⟩, Or.inl ⟨rfl, rfl⟩⟩ t hfin
             exact Goal.step (step36_sq hok hb) (Nat.lt_succ_self p) hr
-        · rw [if_neg hqq] at hfin
+        · rw [if_neg hqq] at hfin; try dsimp only at hfin
           simp only [Bool.or_eq_true, beq_iff_eq, not_or] at hqq
           by_cases h62 : (b == 62) = true
-          · rw [if_pos h62] at hfin
+          · rw [if_pos h62] at hfin; try dsimp only at hfin
             have hb62 : b = 62 := by simpa using h62
             subst hb62
             subst hfin
             exact Reaches.final (step36_gt hok hb) ⟨rfl, rfl, rfl, rfl, rfl, rfl, rfl, rfl, rfl⟩ (Or.inr rfl) (Nat.lt_succ_self p)
-          · rw [if_neg h62] at hfin
+          · rw [if_neg h62] at hfin; try dsimp only at hfin
             have hb62 : ¬b = 62 := by simpa using h62
             have hr := ih rest hlen' (.valueUnquoted nr p) (p + 1) 39 true cq p (some (valueless nr)) as hdrop' hple' ⟨hq, rfl, rfl, rfl, rfl⟩ t hfin
             exact Goal.step2 (step36_other hok hb (isWs_false hws') hqq.1 hqq.2 hb62)
               (step39_first hok hb (isWs_false hws') hb62) (Nat.lt_succ_self p) hr
     | valueQuoted q nr vs =>
-      obtain ⟨ha, hvs, hen, hcq, hS⟩ := hrel
-      subst vs
-      subst ha hen hcq
-      rw [attrs_quoted] at hfin
+      obtain ⟨ha, hcq, hS, hen⟩ := hrel
+      subst ha hcq
+      rw [attrsRun_quoted] at hfin
       cases hf : findByte cq (b :: rest) with
       | none =>
         simp only [hf] at hfin
         subst hfin
         rw [← hdrop] at hf
-        have hlenp : p + 1 + (inp.drop p).length = inp.length + 1 := by simp only [List.length_drop]; omega
-        rcases hS with ⟨rfl, rfl⟩ | ⟨rfl, rfl⟩
-        · exact ReachesEnd.final (step38_eof hok hf) hlenp rfl rfl rfl rfl rfl
-        · exact ReachesEnd.final (step37_eof hok hf) hlenp rfl rfl rfl rfl rfl
+        exact ReachesMid.here ⟨p, S, en, cq, tps, _, rfl, ⟨hq, rfl, rfl, hS, hen⟩, hple, Or.inr ⟨_, _, _, rfl, hf⟩⟩
       | some k =>
         simp only [hf] at hfin
         have hk : k < (b :: rest).length := by
@@ -427,46 +399,40 @@ theorem run_attrs (n : Nat) : ∀ (rest : List UInt8), rest.length ≤ n →
           simp only [List.length_drop, List.length_cons] at hlen hk ⊢; omega
         rw [← hdrop] at hf
         rcases hS with ⟨rfl, rfl⟩ | ⟨rfl, rfl⟩
-        · have hr := ih _ hlen2 (.beforeAttrName false) (p + k + 1) 33 false 34 p none
-            (as ++ [valued nr p (p + k) (p + k + 1)]) hdrop2 hple2 ⟨Or.inl rfl, by simp⟩ t hfin
-          exact Goal.step (step38_found hok hf) (by omega) hr
-        · have hr := ih _ hlen2 (.beforeAttrName false) (p + k + 1) 33 false 39 p none
-            (as ++ [valued nr p (p + k) (p + k + 1)]) hdrop2 hple2 ⟨Or.inr rfl, by simp⟩ t hfin
-          exact Goal.step (step37_found hok hf) (by omega) hr
+        · rcases hen with ⟨hen1, hvs⟩ | ⟨hen1, hvs⟩ <;> subst hen1 <;> subst vs
+          · have hr := ih _ hlen2 (.beforeAttrName false) (p + k + 1) 33 false 34 p none
+              (as ++ [valued nr p (p + k) (p + k + 1)]) hdrop2 hple2 ⟨Or.inl rfl, by simp⟩ t hfin
+            exact Goal.step (step38_found hok hf) (by omega) hr
+          · have hr := ih _ hlen2 (.beforeAttrName false) (p + k + 1) 33 false 34 tps none
+              (as ++ [valued nr tps (p + k) (p + k + 1)]) hdrop2 hple2 ⟨Or.inl rfl, by simp⟩ t hfin
+            exact Goal.step (step38_found_r hok hf) (by omega) hr
+        · rcases hen with ⟨hen1, hvs⟩ | ⟨hen1, hvs⟩ <;> subst hen1 <;> subst vs
+          · have hr := ih _ hlen2 (.beforeAttrName false) (p + k + 1) 33 false 39 p none
+              (as ++ [valued nr p (p + k) (p + k + 1)]) hdrop2 hple2 ⟨Or.inr rfl, by simp⟩ t hfin
+            exact Goal.step (step37_found hok hf) (by omega) hr
+          · have hr := ih _ hlen2 (.beforeAttrName false) (p + k + 1) 33 false 39 tps none
+              (as ++ [valued nr tps (p + k) (p + k + 1)]) hdrop2 hple2 ⟨Or.inr rfl, by simp⟩ t hfin
+            exact Goal.step (step37_found_r hok hf) (by omega) hr
     | valueUnquoted nr vs =>
       obtain ⟨hS, hen, htps, ha⟩ := hrel
       subst hS hen htps ha
-      simp only [attrs] at hfin
+      simp only [attrsRun, attrsStep] at hfin
       by_cases hws : isWs b = true
-      · rw [if_pos hws] at hfin
+      · rw [if_pos hws] at hfin; try dsimp only at hfin
         have hr := ih rest hlen' (.beforeAttrName false) (p + 1) 33 false cq tps none (as ++ [valued nr tps p p]) hdrop' hple' ⟨hq, by simp⟩ t hfin
         exact Goal.step (step39_ws hok hb (isWs_true hws) hq) (Nat.lt_succ_self p) hr
       · have hws' : isWs b = false := by simpa using hws
-        rw [if_neg hws] at hfin
+        rw [if_neg hws] at hfin; try dsimp only at hfin
         by_cases h62 : (b == 62) = true
-        · rw [if_pos h62] at hfin
+        · rw [if_pos h62] at hfin; try dsimp only at hfin
           have hb62 : b = 62 := by simpa using h62
           subst hb62
           subst hfin
           exact Reaches.final (step39_gt hok hb hq) ⟨rfl, rfl, rfl, rfl, rfl, rfl, rfl, rfl, rfl⟩ (Or.inl rfl) (Nat.lt_succ_self p)
-        · rw [if_neg h62] at hfin
+        · rw [if_neg h62] at hfin; try dsimp only at hfin
           have hb62 : ¬b = 62 := by simpa using h62
           have hr := ih rest hlen' (.valueUnquoted nr tps) (p + 1) 39 true cq tps (some (valueless nr)) as hdrop' hple' ⟨hq, rfl, rfl, rfl, rfl⟩ t hfin
           exact Goal.step (step39_other hok hb (isWs_false hws') hb62) (Nat.lt_succ_self p) hr
-
-omit hok in
-/-- the spec never changes the tag name once the attribute states are entered -/
-theorem attrs_name (rest : List UInt8) : ∀ (acc : List AttrOutline) (st : St) (p : Nat) (t : Tag),
-    attrs nm acc st rest p = .finished t → t.name = nm := by
-  induction rest with
-  | nil => intro acc st p t h; cases st <;> simp [attrs] at h
-  | cons b rest ih =>
-    intro acc st p t h
-    cases st <;> simp only [attrs] at h <;>
-      (repeat' split at h) <;>
-      first
-        | exact ih _ _ _ _ h
-        | (simp only [Res.finished.injEq] at h; subst h; rfl)
 
 omit hok in
 theorem slice_snoc {inp : Bytes} {s p : Nat} {b : UInt8} (hs : s ≤ p) (hb : inp[p]? = some b) :
@@ -480,33 +446,45 @@ theorem slice_snoc {inp : Bytes} {s p : Nat} {b : UInt8} (hs : s ≤ p) (hb : in
   simp only [Option.toList_some]
   rw [List.drop_append_of_le_length (by rw [List.length_take]; omega)]
 
+/-- hash of the name bytes, for a finished tag and for a middle state -/
+def tagHash (inp : Bytes) (t : Tag) : Nat := NameHash.ofBytes (slice inp t.name.start t.name.end)
+
+def midHash (inp : Bytes) (start : Nat) : Mid → Nat
+  | .name => NameHash.ofBytes (slice inp start inp.length)
+  | .attrs nm _ _ => NameHash.ofBytes (slice inp nm.start nm.end)
+
 /-- **The tag name loop**, then the attribute loop. -/
 theorem run_tagName (start : Nat) (n : Nat) : ∀ (rest : List UInt8), rest.length ≤ n →
     ∀ (p : Nat) (en : Bool) (cq : UInt8) (cattr : Option AttrOutline) (nm0 : Range) (hh : Nat),
     inp.drop p = rest → p ≤ inp.length → (cq = 34 ∨ cq = 39) → start ≤ p → hh = NameHash.ofBytes (slice inp start p) →
-    ∀ res, tagName start rest p = res →
-    Goal env inp F (fun t => NameHash.ofBytes (slice inp t.name.start t.name.end)) res p
+    ∀ run, tagNameRun start rest p = run →
+    Goal env inp F (tagHash inp) (midHash inp start) start run p
       (mach F p 31 en cq start (some (.startTag nm0 hh .html [] false)) cattr) := by
-  have hend : ∀ (p : Nat) (en : Bool) (cq : UInt8) (cattr : Option AttrOutline) (ct : Option TagOutline),
-      inp.drop p = [] → p ≤ inp.length → ReachesEnd env inp F (mach F p 31 en cq start ct cattr) := by
-    intro p en cq cattr ct hdrop hple
+  have hend : ∀ (p : Nat) (en : Bool) (cq : UInt8) (cattr : Option AttrOutline) (nm0 : Range) (hh : Nat),
+      inp.drop p = [] → p ≤ inp.length → (cq = 34 ∨ cq = 39) → start ≤ p → hh = NameHash.ofBytes (slice inp start p) →
+      ReachesMid env inp F (midHash inp start .name) start .name
+        (mach F p 31 en cq start (some (.startTag nm0 hh .html [] false)) cattr) := by
+    intro p en cq cattr nm0 hh hdrop hple hq hsp hhh
     have hp : p = inp.length := by rw [List.drop_eq_nil_iff] at hdrop; omega
-    exact ReachesEnd.final (step31_eof hok (getElem?_none_of_drop_nil hdrop)) (by simp [hp]) rfl rfl rfl rfl rfl
+    subst hp
+    apply ReachesMid.here
+    refine ⟨en, cq, cattr, nm0, ?_, hq, hsp, rfl⟩
+    rw [hhh]; rfl
   induction n with
   | zero =>
-    intro rest hlen p en cq cattr nm0 hh hdrop hple _ _ _ t hfin
+    intro rest hlen p en cq cattr nm0 hh hdrop hple hq hsp hhh t hfin
     have : rest = [] := by cases rest <;> simp_all
     subst this
-    simp only [tagName] at hfin
+    simp only [tagNameRun] at hfin
     subst hfin
-    exact hend p en cq cattr _ hdrop hple
+    exact hend p en cq cattr nm0 hh hdrop hple hq hsp hhh
   | succ n ih =>
     intro rest hlen p en cq cattr nm0 hh hdrop hple hq hsp hhh t hfin
     cases rest with
     | nil =>
-      simp only [tagName] at hfin
+      simp only [tagNameRun] at hfin
       subst hfin
-      exact hend p en cq cattr _ hdrop hple
+      exact hend p en cq cattr nm0 hh hdrop hple hq hsp hhh
     | cons b rest =>
     obtain ⟨hb, hdrop'⟩ := drop_cons_facts hdrop
     have hlen' : rest.length ≤ n := by simp at hlen; omega
@@ -515,36 +493,46 @@ theorem run_tagName (start : Nat) (n : Nat) : ∀ (rest : List UInt8), rest.leng
       · exact hlt
       · rw [List.getElem?_eq_none hge] at hb; simp at hb
     -- the attribute loop from a finished name, re-labelled with the hash of the name bytes
-    have relabel : ∀ (S : Nat) (p' : Nat) (m' : M κ), Goal env inp F (fun _ => hh) t p' m' →
-        (∀ t', t = .finished t' → t'.name = ⟨start, p⟩) →
-        Goal env inp F (fun t => NameHash.ofBytes (slice inp t.name.start t.name.end)) t p' m' := by
-      intro S p' m' hg hname
+    have relabel : ∀ (p' : Nat) (m' : M κ) (st0 : St),
+        attrsRun ⟨start, p⟩ [] st0 rest (p + 1) = t →
+        Goal env inp F (fun _ => hh) (fun _ => hh) start t p' m' →
+        Goal env inp F (tagHash inp) (midHash inp start) start t p' m' := by
+      intro p' m' st0 hrun hg
       cases t with
-      | unfinished => exact hg
-      | finished t' =>
-        have := hname t' rfl
-        show Reaches env inp F (NameHash.ofBytes (slice inp t'.name.start t'.name.end)) t' p' m'
+      | inl t' =>
+        have := (attrsRun_name _ _ _ _ _).1 t' hrun
+        show Reaches env inp F (tagHash inp t') t' p' m'
+        unfold tagHash
         rw [this]
         simp only
         rw [← hhh]
         exact hg
-    simp only [tagName] at hfin
+      | inr mid =>
+        cases mid with
+        | name => exact absurd hrun (attrsRun_ne_name _ _ _ _ _)
+        | attrs nm' acc' st' =>
+          have := (attrsRun_name _ _ _ _ _).2 _ _ _ hrun
+          subst this
+          show ReachesMid env inp F (midHash inp start (.attrs ⟨start, p⟩ acc' st')) start _ m'
+          unfold midHash
+          simp only
+          rw [← hhh]
+          exact hg
+    simp only [tagNameRun] at hfin
     by_cases hws : isWs b = true
     · rw [if_pos hws] at hfin
-      have hr := run_attrs hok F ⟨start, p⟩ hh rest.length rest (Nat.le_refl _) (.beforeAttrName false) (p + 1) 33 false cq start
+      have hr := run_attrs hok F ⟨start, p⟩ hh start rest.length rest (Nat.le_refl _) (.beforeAttrName false) (p + 1) 33 false cq start
         cattr [] hdrop' hple' ⟨hq, by simp⟩ t hfin
-      exact Goal.step (step31_ws hok hb (isWs_true hws)) (Nat.lt_succ_self p)
-        (relabel 33 _ _ hr (fun t' ht => attrs_name ⟨start, p⟩ rest _ _ _ _ (ht ▸ hfin)))
+      exact Goal.step (step31_ws hok hb (isWs_true hws)) (Nat.lt_succ_self p) (relabel _ _ _ hfin hr)
     · have hws' : isWs b = false := by simpa using hws
       rw [if_neg hws] at hfin
       by_cases h47 : (b == 47) = true
       · rw [if_pos h47] at hfin
         have hb47 : b = 47 := by simpa using h47
         subst hb47
-        have hr := run_attrs hok F ⟨start, p⟩ hh rest.length rest (Nat.le_refl _) (.beforeAttrName true) (p + 1) 32 false cq start
+        have hr := run_attrs hok F ⟨start, p⟩ hh start rest.length rest (Nat.le_refl _) (.beforeAttrName true) (p + 1) 32 false cq start
           cattr [] hdrop' hple' ⟨hq, by simp⟩ t hfin
-        exact Goal.step (step31_slash hok hb) (Nat.lt_succ_self p)
-          (relabel 32 _ _ hr (fun t' ht => attrs_name ⟨start, p⟩ rest _ _ _ _ (ht ▸ hfin)))
+        exact Goal.step (step31_slash hok hb) (Nat.lt_succ_self p) (relabel _ _ _ hfin hr)
       · rw [if_neg h47] at hfin
         have hb47 : ¬b = 47 := by simpa using h47
         by_cases h62 : (b == 62) = true
@@ -563,10 +551,10 @@ theorem run_tagName (start : Nat) (n : Nat) : ∀ (rest : List UInt8), rest.leng
 
 /-- **From the data state at `<`** (no pending text) to `emit_tag`, or to the end of the input. -/
 theorem run_startTag (i : Nat) (hls : F.ls = i) (en : Bool) (cq : UInt8) (hq : cq = 34 ∨ cq = 39) (tps : Nat)
-    (ct : Option TagOutline) (cattr : Option AttrOutline) (res : Res)
-    (hspec : startTagAt inp i = some res) :
-    Goal env inp F (fun t => NameHash.ofBytes (slice inp t.name.start t.name.end)) res i (mach F i 2 en cq tps ct cattr) := by
-  unfold startTagAt at hspec
+    (ct : Option TagOutline) (cattr : Option AttrOutline) (run : Tag ⊕ Mid)
+    (hspec : startTagRun inp i = some run) :
+    Goal env inp F (tagHash inp) (midHash inp (i + 1)) (i + 1) run i (mach F i 2 en cq tps ct cattr) := by
+  unfold startTagRun at hspec
   split at hspec
   · rename_i b rest hdrop
     split at hspec
@@ -581,7 +569,7 @@ theorem run_startTag (i : Nat) (hls : F.ls = i) (en : Bool) (cq : UInt8) (hq : c
       have hr := run_tagName hok F (i + 1) rest.length rest (Nat.le_refl _) (i + 2) false cq cattr .default
         (NameHash.update NameHash.new b) hdrop2 hlen hq (by omega)
         (by rw [show i + 2 = (i + 1) + 1 by omega, slice_snoc (Nat.le_refl _) hb1]
-            simp [slice, NameHash.ofBytes]) res hspec
+            simp [slice, NameHash.ofBytes]) run hspec
       have h1 := step2_lt hok (inp := inp) (p := i) (il := F.il) (en := en) (ca := F.ca) (lsh := F.lsh) (cq := cq)
         (ltt := F.ltt) (x := F.x) (l := ⟨F.ls, tps, ct, F.cnt, cattr, F.fd⟩) hb0 hls
       have h2 := step28_alpha hok (inp := inp) (p := i + 1) (il := F.il) (en := false) (ca := F.ca) (lsh := F.lsh)
